@@ -1581,6 +1581,7 @@ def d_update(E, d, a, k):
                 key = E.force(pair[0])
                 if isinstance(key, Sym):
                     raise Unsupported("dict.update with symbolic key")
+                E.dict_key_guard(d.d, key)
                 d.d[key] = pair[1]
     for kk, vv in k.items():
         d.d[kk] = vv
@@ -1594,6 +1595,7 @@ def d_pop(E, d, a, k):
     key = E.force(a[0])
     if isinstance(key, Sym):
         raise Unsupported("dict.pop symbolic key")
+    E.dict_key_guard(d.d, key)
     if key in d.d:
         return d.d.pop(key)
     if len(a) > 1:
